@@ -68,6 +68,8 @@ class Spec(L.Spec):
         # priority information given with header blocks: falsy but present values included
         for k in sorted(PRIO_KW):
             A.append("l:hdrp:%d:%s:%s" % (f, "request" if client else "response", k))
+        # frames of the peer that report or change nothing as far as what we may SEND is concerned
+        A += ["rx:altsvc:%d" % f, "rx:prio:%d" % f, "rx:wu:%d" % f]
         if client:
             A += ["rx:hdr:%d:response" % f, "rx:hdr:%d:response:es" % f, "rx:push:%d:%d" % (f, p), "rx:hdr:%d:response" % p,
                   "rx:data:%d:es" % f]
@@ -103,6 +105,10 @@ class Spec(L.Spec):
 
     def execute(self, st, lab):
         parts = lab.split(":")
+        if parts[0] == "rx" and parts[1] in ("altsvc", "prio"):
+            sid = int(parts[2])
+            fr = wire.altsvc(sid, b"", b'h2=":443"') if parts[1] == "altsvc" else wire.priority(sid, 0, 5, False)
+            return st.h.rx([fr]), {"dir": "rx", "kind": parts[1], "es": False, "sid": sid}
         if parts[0] == "l" and parts[1] in ("badhdr", "badpush", "hdrp"):
             h = st.h
             m = h.m
